@@ -1,5 +1,5 @@
 (* C17  Async adapter: byte-exact I/O, tasks always woken, blocking mode restored.
-   (PARTIAL: one outstanding operation per adapter, one direction; the byte content, the blocking-mode flag and the poller
+   (PARTIAL: one outstanding operation per adapter; the byte protocol is modelled for one direction, the wait/wake protocol for both; the byte content, the blocking-mode flag and the poller
    table are checked end to end on real sockets by the correspondence run, not proved.) *)
 From CV Require Import Base SrcAsync.
 From CVP Require Import SrcAsync_proofs.
@@ -20,7 +20,23 @@ Proof. exact poll_makes_progress. Qed.
 Theorem C17_never_more_than_offered : forall s, ainv s -> moved s <= offered s.
 Proof. exact moved_le_offered. Qed.
 
+(* both directions: for ANY sequence of readable()/writable() polls - each either staying suspended or abandoned (future
+   dropped) - readiness changes and dispatches, a task suspended in a wait for direction d has been woken already or the
+   one-shot entry is armed FOR d with the waker stored; hence one dispatch after the fd became ready for d wakes it; and a
+   dispatch wakes only for a ready armed interest *)
+Theorem C17_wait_invariant : forall ops, winv (w_run ops).
+Proof. exact winv_run. Qed.
+Theorem C17_wait_woken_when_ready : forall s d, winv s -> susp s = Some d -> kready s d = true -> woken (w_step s WDispatch) = true.
+Proof. exact w_woken_when_ready. Qed.
+Theorem C17_wait_no_spurious_wake : forall s, woken s = false -> woken (w_step s WDispatch) = true -> parmed s = true /\ kready s (pint s) = true.
+Proof. exact w_no_spurious_wake. Qed.
+
 Example C17_nonvacuous :
   let s := a_run 10 [APoll 0; APeer 4; ADispatch; APoll 100; APoll 1; APeer 6; ADispatch; APoll 6; APoll 0] in
   status s = TFinished /\ moved s = 10.
 Proof. vm_compute. split; reflexivity. Qed.
+(* a write wait on a full buffer is abandoned, then a read wait: the entry is re-armed for READ and the data wakes the task *)
+Example C17_wait_nonvacuous :
+  let s := w_run [WEnvW false; WPoll DW false; WPoll DR true; WEnvR true; WDispatch] in
+  susp s = Some DR /\ woken s = true /\ wout s = [3; 0; 0].
+Proof. vm_compute. repeat split; reflexivity. Qed.
